@@ -155,8 +155,8 @@ type vfTabContent struct {
 	problems []string
 }
 
-var vfDefs = func(fkMode byte) []*vfTabDef {
-	return []*vfTabDef{
+var vfDefs = func(fkMode byte, prop string) []*vfTabDef {
+	defs := []*vfTabDef{
 		{name: "t1", cols: []string{"k", "a", "u", "v"}, idxs: []vfIdxDef{
 			{mode: 'k', cols: []string{"k"}}, {mode: 'i', cols: []string{"a"}}, {mode: 'u', cols: []string{"u"}}}},
 		{name: "t2", cols: []string{"k2", "k", "d", "v"}, idxs: []vfIdxDef{
@@ -172,6 +172,13 @@ var vfDefs = func(fkMode byte) []*vfTabDef {
 			{mode: 'k', cols: []string{"x"}},
 			{mode: 'i', cols: []string{"fk", "fk2"}, fkTable: "t2", fkCols: []string{"k", "k2"}, fkMode: schema.Block}}},
 	}
+	if prop == "C07" {
+		// overlapping composite keys: two keys that share a column and neither contains the other, plus a unique index
+		// that shares a column with a key (the duplicate check of each must be made on its own)
+		defs = append(defs, &vfTabDef{name: "t6", cols: []string{"a", "b", "c", "v"}, idxs: []vfIdxDef{
+			{mode: 'k', cols: []string{"a", "b"}}, {mode: 'k', cols: []string{"a", "c"}}, {mode: 'u', cols: []string{"b", "c"}}}})
+	}
+	return defs
 }
 
 func vfPackInt(n int) string { return core.Pack(core.IntVal(n)) }
@@ -196,7 +203,7 @@ func vfNewSim(p vfProfile, rep *vk.Report, hist int) *vfSim {
 		s.db = CreateDb(stor.HeapStor(32 * 1024))
 	}
 	s.sc = &vfSchema{defs: map[string]*vfTabDef{}, specs: map[string][]ixkey.Spec{}}
-	for _, d := range vfDefs(p.fkMode) {
+	for _, d := range vfDefs(p.fkMode, p.prop) {
 		sch := &schema.Schema{Table: d.name, Columns: append([]string(nil), d.cols...)}
 		for _, ix := range d.idxs {
 			si := schema.Index{Mode: ix.mode, Columns: append([]string{}, ix.cols...)}
@@ -210,7 +217,7 @@ func vfNewSim(p vfProfile, rep *vk.Report, hist int) *vfSim {
 		s.sc.order = append(s.sc.order, d.name)
 	}
 	st := s.db.GetState()
-	for _, d := range vfDefs(p.fkMode) {
+	for _, d := range vfDefs(p.fkMode, p.prop) {
 		ts := st.Meta.GetRoSchema(d.name)
 		for i := range d.idxs {
 			s.sc.specs[d.name] = append(s.sc.specs[d.name], ts.Indexes[i].Ixspec)
@@ -528,6 +535,14 @@ func (s *vfSim) genRow(r *rand.Rand, table, payload string) vfRow {
 		return vfRow{vfPackInt(r.IntN(k + k/2)), fk, vfPackInt(r.IntN(3)), vfPackStr(payload)}
 	case "t3":
 		return vfRow{vfPackInt(r.IntN(5)), vfPackStr(payload)}
+	case "t6":
+		u := func() string {
+			if r.IntN(4) == 0 {
+				return ""
+			}
+			return vfPackInt(r.IntN(3))
+		}
+		return vfRow{vfPackInt(r.IntN(3)), u(), u(), vfPackStr(payload)}
 	case "t5":
 		fk, fk2 := "", ""
 		if r.IntN(6) != 0 {
@@ -541,6 +556,9 @@ func (s *vfSim) genRow(r *rand.Rand, table, payload string) vfRow {
 }
 
 func (s *vfSim) pickTable(r *rand.Rand) string {
+	if s.p.prop == "C07" && r.IntN(4) == 0 {
+		return "t6"
+	}
 	if s.p.fkFocus {
 		switch n := r.IntN(100); {
 		case n < 32:
